@@ -119,10 +119,10 @@ inline bool operator==(JsonArrayConst lhs, JsonArrayConst rhs) {
   auto b = rhs.begin();
 
   for (;;) {
-    if (a == b)  // same pointer or both null
-      return true;
+    // the elements decide, even when both sides are the same array
+    // (an array that contains NaN is not equal to itself, like the NaN)
     if (a == lhs.end() || b == rhs.end())
-      return false;
+      return a == lhs.end() && b == rhs.end();
     if (*a != *b)
       return false;
     ++a;
